@@ -27,8 +27,12 @@ fn set_linger0(s: &TcpStream) {
 }
 
 fn get(addr: &std::net::SocketAddr) -> Result<Vec<u8>, String> {
-    let mut s = TcpStream::connect_timeout(addr, Duration::from_secs(2)).map_err(|e| format!("connect: {}", e))?;
-    s.set_read_timeout(Some(Duration::from_secs(3))).ok();
+    get_with(addr, 3)
+}
+
+fn get_with(addr: &std::net::SocketAddr, secs: u64) -> Result<Vec<u8>, String> {
+    let mut s = TcpStream::connect_timeout(addr, Duration::from_secs(secs.max(2))).map_err(|e| format!("connect: {}", e))?;
+    s.set_read_timeout(Some(Duration::from_secs(secs))).ok();
     s.write_all(b"GET /file.txt HTTP/1.1\r\nHost: localhost\r\n\r\n").map_err(|e| format!("write: {}", e))?;
     let mut out = Vec::new();
     let mut buf = [0u8; 4096];
@@ -88,6 +92,11 @@ fn act(letter: &str, addr: &std::net::SocketAddr, keep: &mut Vec<TcpStream>) {
 
 /// runs in a forked child: returns a JSON observation
 pub fn child(history: &[usize]) -> Vec<u8> {
+    child_with(history, false)
+}
+
+/// `patient`: longer pauses and time limits (used to confirm a failure before it is reported)
+pub fn child_with(history: &[usize], patient: bool) -> Vec<u8> {
     let listener = match TcpListener::bind("127.0.0.1:0") {
         Ok(l) => l,
         Err(e) => return serde_json::to_vec(&json!({"error": format!("bind: {}", e)})).unwrap(),
@@ -106,12 +115,12 @@ pub fn child(history: &[usize]) -> Vec<u8> {
     let mut keep = Vec::new();
     for l in history {
         act(LETTERS[*l], &addr, &mut keep);
-        std::thread::sleep(Duration::from_millis(3));
+        std::thread::sleep(Duration::from_millis(if patient { 30 } else { 3 }));
     }
-    std::thread::sleep(Duration::from_millis(15));
+    std::thread::sleep(Duration::from_millis(if patient { 300 } else { 15 }));
     // an idle connection legitimately holds a worker; with all workers held nobody can answer
     let idle = keep.len();
-    let probe = if idle >= WORKERS { Ok(b"skipped".to_vec()) } else { get(&addr) };
+    let probe = if idle >= WORKERS { Ok(b"skipped".to_vec()) } else { get_with(&addr, if patient { 20 } else { 3 }) };
     let run_returned = returned.load(Ordering::SeqCst);
     let (ok, detail) = match &probe {
         Ok(b) if b == b"skipped" => (true, "skipped: all workers hold idle connections".to_string()),
@@ -143,6 +152,16 @@ pub fn check(h: &[usize], repeats: usize) -> (String, Vec<(String, String)>) {
         if v.get("error").is_some() {
             // environment problem (cannot bind): not a verdict
             return ("env-error".into(), vec![]);
+        }
+        let failed = v["run_returned"].as_bool() == Some(true) || v["probe_ok"].as_bool() != Some(true);
+        if failed {
+            // confirm with generous pauses and time limits before believing it: a loaded machine
+            // may be slow, and this tier must never raise a false alarm
+            let again = fork_run(|| child_with(h, true)).ok().and_then(|o| serde_json::from_slice::<Value>(&o).ok());
+            let still = again.map(|w| w["run_returned"].as_bool() == Some(true) || w["probe_ok"].as_bool() != Some(true)).unwrap_or(false);
+            if !still {
+                continue;
+            }
         }
         if v["run_returned"].as_bool() == Some(true) {
             fails.push((format!("C06:B:accept-loop-returned-after:{}", blame), format!("Server::run returned; probe: {}", v["probe"])));
